@@ -16,7 +16,10 @@ use cw_multi_test::{App, AppBuilder, BankSudo, Executor, IntoAddr, StakingInfo, 
 use serde::{Deserialize, Serialize};
 use std::collections::{BTreeMap, BTreeSet, VecDeque};
 
-const DENOM: &str = "TOKEN";
+/// the chain is configured with a bonded denomination of its own; the foreign denomination used by
+/// the "foreign denomination" operations is the crate's *default* bonded denomination
+const DENOM: &str = "ustake";
+const FOREIGN: &str = "TOKEN";
 const YEAR: u64 = 60 * 60 * 24 * 365;
 const N_DELEGATORS: usize = 3;
 const N_THIRD: usize = 2;
@@ -182,7 +185,7 @@ impl World {
                 router.staking.add_validator(api, storage, &mock_env().block, val).unwrap();
             }
             for (i, d) in d2.iter().enumerate() {
-                let mut coins = vec![coin(50, "other")];
+                let mut coins = vec![coin(50, FOREIGN)];
                 if f2[i] > 0 {
                     coins.push(coin(f2[i], DENOM));
                 }
@@ -438,7 +441,7 @@ impl StakingCheck {
                     let who = w.delegators[d].to_string();
                     let a = w.resolve(*amt, w.bal[&who]);
                     *concrete.last_mut().unwrap() = SOp::Delegate(d as u8, *vi, SAmt::Exact(a.min(u64::MAX as u128) as u64), *foreign);
-                    let denom = if *foreign { "other" } else { DENOM };
+                    let denom = if *foreign { FOREIGN } else { DENOM };
                     let have = if *foreign { 50 } else { w.bal[&who] };
                     let listed_invalid = a == 0 || *foreign || !known;
                     let valid = !listed_invalid && a <= have;
@@ -482,7 +485,7 @@ impl StakingCheck {
                     let vname = if known { w.validators[*vi as usize].clone() } else { "nobody".to_string() };
                     let shown = if known { w.real_delegation(d, *vi as usize).map(|x| x.0).unwrap_or(0) } else { 0 };
                     let a = w.resolve(*amt, shown);
-                    let denom = if *foreign { "other" } else { DENOM };
+                    let denom = if *foreign { FOREIGN } else { DENOM };
                     let (is_re, dst) = match op {
                         SOp::Redelegate(_, _, dst, _, _) => (true, *dst as usize),
                         _ => (false, 0),
@@ -937,7 +940,7 @@ impl Check for StakingCheck {
         let mut unbonding_time = unbonding_time;
         // scenario templates: shapes that random operations reach only rarely; random operations follow
         let (mut apr, mut commissions, mut funds): (u128, Vec<u64>, Vec<u64>) = (apr, commissions, funds);
-        match g.weighted(&[12, 2, 2, 2]) {
+        match g.weighted(&[12, 2, 2, 2, 2]) {
             3 => {
                 // rewards that are whole tokens although the per-token rate (total reward / total stake)
                 // does not terminate in 18 decimals: two delegators with 300k and 600k on one validator,
@@ -953,6 +956,27 @@ impl Check for StakingCheck {
                 ops.push(SOp::Advance(if g.bool() { YEAR / 3 } else { YEAR / 9 * g.range(1, 9) }));
                 ops.push(SOp::Withdraw(0, v));
                 ops.push(SOp::Withdraw(1, v));
+            }
+            4 => {
+                // fractional delegations on both sides of a redelegation of the whole visible amount:
+                // two odd delegations, both validators halved, everything visible moved over (twice)
+                let v = g.below(nval) as u8;
+                let w = (v + 1) % nval as u8;
+                let d = g.below(N_DELEGATORS) as u8;
+                let (a, b) = (2 * g.range(1, 50) + 1, 2 * g.range(1, 50) + 1);
+                funds[d as usize] = 2 * (a + b) + g.range(0, 5);
+                ops.push(SOp::Delegate(d, v, SAmt::Exact(a), false));
+                ops.push(SOp::Delegate(d, w, SAmt::Exact(b), false));
+                ops.push(SOp::Slash(v, PSpec::Half));
+                if g.bool() {
+                    ops.push(SOp::Slash(w, PSpec::Half));
+                }
+                ops.push(SOp::Redelegate(d, v, w, SAmt::All, false));
+                if g.bool() {
+                    ops.push(SOp::Delegate(d, v, SAmt::Exact(a), false));
+                    ops.push(SOp::Slash(v, PSpec::Half));
+                    ops.push(SOp::Redelegate(d, v, w, SAmt::All, false));
+                }
             }
             1 => {
                 // a slash leaves the only delegator a sub-token remainder on a validator whose whole-token
